@@ -18,7 +18,7 @@
 # Prints one line per function: "OK <name> <n points>" or "FAIL ...".
 # Exit status is non-zero on any failure.
 #
-# Environment: SEED (default 1), N (default 2000), JOBS (default nproc),
+# Environment: SEED (default 1), N (default 2000), JOBS (default 4),
 # KEEP=1 keeps the work directory.
 
 set -u
@@ -27,7 +27,7 @@ COQROOT="$(cd "$HERE/../../coq" && pwd)"
 REPO="${REPO:-/repo}"
 SEED="${SEED:-1}"
 N="${N:-2000}"
-JOBS="${JOBS:-$(nproc)}"
+JOBS="${JOBS:-4}"
 export GOFLAGS=-mod=mod GOPROXY=off
 
 W="$(mktemp -d /tmp/go2coq-selftest.XXXXXX)"
@@ -43,7 +43,7 @@ note() { echo "-- $*"; }
 
 # ------------------------------------------------------------------ 1. build
 note "building go2coq"
-(cd "$HERE" && go build -o go2coq .) || { echo "FAIL build go2coq"; exit 1; }
+(cd "$HERE" && go build -p 4 -o go2coq .) || { echo "FAIL build go2coq"; exit 1; }
 G="$HERE/go2coq"
 
 note "compiling GoInt.v"
@@ -75,10 +75,10 @@ translate "$W/gen" "$T/g0" Gen_g0 "$G0FUNCS" "$T/g0/g0.json" "$T/g0/zz_go2coq_ha
 # real targets: name | repo dir | copy dir | funcs | repo config | copy config
 REAL="
 files|$REPO/files|$T/real/files|ModePermsToUnixPerms,UnixPermsToModePerms||
-uio|$REPO/ipld/unixfs/io|$T/real/uio|varintLen,linkSerializedSize|$T/real/uio/repo.json|$T/real/uio/g2c.json
+uio|$REPO/ipld/unixfs/io|$T/real/uio|varintLen,linkSerializedSize|$T/real/uio/g2c.json|$T/real/uio/g2c.json
 namesys|$REPO/namesys|$T/real/namesys|minNonZeroTTL||
 peering|$REPO/peering|$T/real/peering|(*peerHandler).nextBackoff|$T/real/peering/repo.json|$T/real/peering/g2c.json
-trickle|$REPO/ipld/unixfs/importer/trickle|$T/real/trickle|trickleDepthInfo|$T/real/trickle/repo.json|$T/real/trickle/g2c.json
+trickle|$REPO/ipld/unixfs/importer/trickle|$T/real/trickle|trickleDepthInfo|$T/real/trickle/g2c.json|$T/real/trickle/g2c.json
 verifcid|$REPO/verifcid|$T/real/verifcid|(defaultAllowlist).IsAllowed,(defaultAllowlist).MinDigestSize,(defaultAllowlist).MaxDigestSize||
 "
 strip_comments() { grep -v '^(\*' "$1"; }
@@ -115,7 +115,7 @@ for m in g0 $REALPKGS; do
 done
 
 note "running the Go side (N=$N, SEED=$SEED)"
-(cd "$T" && go build -o "$W/harness" ./cmd/harness) || { echo "FAIL build harness"; exit 1; }
+(cd "$T" && go build -p 4 -o "$W/harness" ./cmd/harness) || { echo "FAIL build harness"; exit 1; }
 : >"$W/jobs"
 for m in g0 $REALPKGS; do
   mkdir -p "$W/chk/$m"
@@ -152,7 +152,7 @@ while IFS='|' read -r fn cfg want; do
   case "$fn" in ''|'#'*) continue ;; esac
   if out="$("$G" -dir "$T/reject" -module Gen_reject -o "$W/Gen_reject.v" -funcs "$fn" ${cfg:+-config "$T/reject/$cfg"} 2>&1)"; then
     fail "reject: $fn was accepted"
-  elif ! echo "$out" | grep -q -- "$want"; then
+  elif ! echo "$out" | grep -qF -- "$want"; then
     fail "reject: $fn refused with an unexpected message: $out (wanted: $want)"
   else
     echo "OK reject $fn ($want)"
